@@ -223,10 +223,49 @@ def check_memo_dependencies(ctx: CheckContext, p: Program, r: Resolver, classes:
 
 
 # ------------------------------------------------------------------------------------------ RECOMPUTE
+def _consults_registry(r: Resolver, f: FuncInfo, e: ast.AST, depth: int = 0) -> Optional[str]:
+    """how an expression looks into <zone>.targets, if it does: directly (`k in z.targets`, `z.targets.get(k)`) or through a package helper whose
+    result is computed from such a look-up"""
+    for c in ast.walk(e):
+        if isinstance(c, ast.Compare) and len(c.ops) == 1 and isinstance(c.ops[0], (ast.In, ast.NotIn)) and isinstance(c.comparators[0], ast.Attribute) \
+                and c.comparators[0].attr == "targets":
+            return f"`{ast.unparse(c)[:70]}`"
+        if isinstance(c, ast.Call) and isinstance(c.func, ast.Attribute) and c.func.attr == "get" and isinstance(c.func.value, ast.Attribute) \
+                and c.func.value.attr == "targets":
+            return f"`{ast.unparse(c)[:70]}`"
+        if isinstance(c, ast.Call) and depth < 2:
+            for h in r.resolve_call(f, c):
+                if isinstance(h, FuncInfo) and not isinstance(h.node, ast.Lambda) and h is not f:
+                    for st in body_nodes(h):
+                        if isinstance(st, (ast.Return, ast.Assign)) and st.value is not None:
+                            how = _consults_registry(r, h, st.value, depth + 1)
+                            if how and any(isinstance(x, ast.Return) for x in body_nodes(h)):
+                                return f"{h.name}() -> {how}"
+    return None
+
+
+def _defines_records(reg, r: Resolver, f: FuncInfo, call: ast.Call, depth: int = 0) -> Optional[str]:
+    for t in r.resolve_call(f, call):
+        if isinstance(t, FuncInfo) and not isinstance(t.node, ast.Lambda):
+            if reg.summary(t).defines:
+                return t.name
+            if depth < 2:
+                for c2, _ in r.calls_of(t):
+                    nm = _defines_records(reg, r, t, c2, depth + 1)
+                    if nm:
+                        return t.name
+    return None
+
+
 def check_no_registry_skip(ctx: CheckContext, p: Program, r: Resolver, funcs: List[FuncInfo], rule: str = "RECOMPUTE") -> int:
-    ctx.rule(rule, "no targeting function tests whether a record already exists in <zone>.targets to decide what to compute: the registry is an output, "
-                   "and a zone whose streams changed must be re-targeted")
+    ctx.rule(rule, "no targeting function tests whether a record already exists in <zone>.targets to decide what to compute - directly or through a helper "
+                   "predicate guarding a call that (re)computes records: the registry is an output, and a zone whose streams changed must be re-targeted")
     tt = p.find_class("TargetType")
+    from .order import Registry
+    try:
+        reg = Registry(p, r)
+    except Exception:
+        reg = None
     n = 0
     for f in funcs:
         if isinstance(f.node, ast.Lambda):
@@ -234,14 +273,32 @@ def check_no_registry_skip(ctx: CheckContext, p: Program, r: Resolver, funcs: Li
         for nd in body_nodes(f):
             if not isinstance(nd, (ast.If, ast.IfExp, ast.While)):
                 continue
+            direct = False
             for c in ast.walk(nd.test):
                 if isinstance(c, ast.Compare) and len(c.ops) == 1 and isinstance(c.ops[0], (ast.In, ast.NotIn)) and isinstance(c.comparators[0], ast.Attribute) \
                         and c.comparators[0].attr == "targets":
+                    direct = True
                     kt = _key_target(r, f, c.left, tt) if tt is not None else None
                     n += 1
                     ctx.ob(rule, f"{f.qualname}:{ast.unparse(c)[:70]}", f"{f.module.relpath}:{nd.lineno}", False,
                            f"`{ast.unparse(c)[:90]}` decides what {f.name} computes" + (f" (record kind {kt[1]})" if kt else "") +
                            ": once a record exists it is never recomputed, so targets built from it are stale after the zone's streams change")
+            if direct or reg is None or not isinstance(nd, ast.If):
+                continue
+            how = _consults_registry(r, f, nd.test)
+            if how is None:
+                continue
+            guarded = None
+            for st in nd.body + nd.orelse:
+                for c in ast.walk(st):
+                    if isinstance(c, ast.Call):
+                        guarded = guarded or _defines_records(reg, r, f, c)
+            if guarded is None:
+                continue
+            n += 1
+            ctx.ob(rule, f"{f.qualname}:guarded:{guarded}", f"{f.module.relpath}:{nd.lineno}", False,
+                   f"whether {f.name} calls {guarded}() - which computes the zone's records - depends on a record already stored in the registry ({how}): "
+                   f"the stored record is taken as current although the zone's streams may have changed since it was computed")
     return n
 
 
